@@ -96,6 +96,11 @@ fn fonts_menu() -> Vec<ds::Horizontal> {
         ligf('€', "é€", 0),
         chf('😀', 1),
         chf('😀', 0),
+        // the font gives a width but no height / no depth / neither
+        chf('h', 0),
+        chf('d', 0),
+        chf('w', 0),
+        ligf('w', "ww", 0),
         glue(PT, 2 * PT, Normal, PT, Normal),
         kern(PT, ds::KernKind::Normal),
         hbox(PT, 2 * PT, PT, 0),
@@ -443,6 +448,24 @@ trait FontDyn: Sync {
     fn pack(&self, list: Vec<ds::Horizontal>, pw: ds::PackWidth) -> ds::HBox;
     fn metrics(&self, c: char, font: u32) -> Option<(i64, i64, i64)>;
     fn unit(&self) -> i32;
+    /// the repo overrides `FontRepo::width_height_depth` (route b) instead of using the default method (route a)
+    fn overrides_whd(&self) -> bool {
+        false
+    }
+}
+impl FontDyn for conv::FontWhd {
+    fn pack(&self, list: Vec<ds::Horizontal>, pw: ds::PackWidth) -> ds::HBox {
+        ds::HBox::pack(self, list, pw)
+    }
+    fn metrics(&self, c: char, font: u32) -> Option<(i64, i64, i64)> {
+        conv::font_fn(self.unit)(c, font)
+    }
+    fn unit(&self) -> i32 {
+        self.unit
+    }
+    fn overrides_whd(&self) -> bool {
+        true
+    }
 }
 impl FontDyn for conv::Font {
     fn pack(&self, list: Vec<ds::Horizontal>, pw: ds::PackWidth) -> ds::HBox {
@@ -456,8 +479,8 @@ impl FontDyn for conv::Font {
     }
 }
 
-fn check_list(list_idx: u64, list: &[ds::Horizontal], acc: &mut Acc) {
-    let mlist = match conv::to_model_drop_missing(list, &|c, f| FONT.metrics(c, f)) {
+fn check_list(list_idx: u64, list: &[ds::Horizontal], font: &dyn FontDyn, acc: &mut Acc) {
+    let mlist = match conv::to_model_drop_missing(list, &|c, f| font.metrics(c, f)) {
         Ok(m) => m,
         Err(_) => {
             acc.skipped += 1;
@@ -486,9 +509,13 @@ fn check_list(list_idx: u64, list: &[ds::Horizontal], acc: &mut Acc) {
     // between (whatever else is in between), and characters missing from their font
     let mut last: Option<(char, u32, bool)> = None;
     let (mut refont, mut missing, mut missing_after_present) = (false, false, false);
+    let mut partial = false;
     for n in list {
         if let ds::Horizontal::Char(ds::Char { char, font }) | ds::Horizontal::Ligature(ds::Ligature { char, font, .. }) = n {
             let present = FONT.metrics(*char, *font).is_some();
+            if matches!(conv::metrics_opt(*char, *font), Some((_, h, d)) if h.is_none() || d.is_none()) {
+                partial = true;
+            }
             missing |= !present;
             if let Some((c, f, p)) = last {
                 if c == *char && f != *font {
@@ -500,6 +527,9 @@ fn check_list(list_idx: u64, list: &[ds::Horizontal], acc: &mut Acc) {
         }
     }
     let ntargets_hint = 1;
+    if partial {
+        acc.count(if font.overrides_whd() { "glyph_with_width_but_no_height_or_depth_via_overriding_repo" } else { "glyph_with_width_but_no_height_or_depth_via_default_method" });
+    }
     if refont {
         acc.count_n("same_character_repeated_in_another_font", ntargets_hint);
     }
@@ -553,7 +583,7 @@ fn check_list(list_idx: u64, list: &[ds::Horizontal], acc: &mut Acc) {
         acc.count("half_running_rule_decides_height_or_depth");
     }
     for (k, t) in targets(&p0).into_iter().enumerate() {
-        check_pack(list_idx * 16 + k as u64, list, &mlist, t, &FONT, acc);
+        check_pack(list_idx * 16 + k as u64, list, &mlist, t, font, acc);
     }
     if list_idx % 50021 == 11 {
         acc.sample(list_idx, || json!({"list": conv::render(list), "natural_pack": describe(&p0)}));
@@ -648,6 +678,10 @@ fn self_validate(ctx: &mut Ctx) -> u64 {
 // ---------------------------------------------------------------------------------- main
 
 fn seq_family(ctx: &mut Ctx, family_no: u64, name: &str, what: &str, menu: &(dyn Fn() -> Vec<ds::Horizontal> + Sync), min_len: u32, max_len: u32) {
+    seq_family_font(ctx, family_no, name, what, menu, min_len, max_len, &FONT)
+}
+#[allow(clippy::too_many_arguments)]
+fn seq_family_font(ctx: &mut Ctx, family_no: u64, name: &str, what: &str, menu: &(dyn Fn() -> Vec<ds::Horizontal> + Sync), min_len: u32, max_len: u32, font: &dyn FontDyn) {
     let k = menu().len() as u64;
     let below: u64 = if min_len == 0 { 0 } else { vcore::strings_upto(k, min_len - 1) };
     let n = vcore::strings_upto(k, max_len) - below;
@@ -656,7 +690,7 @@ fn seq_family(ctx: &mut Ctx, family_no: u64, name: &str, what: &str, menu: &(dyn
         let menu = menu();
         for i in r {
             let list: Vec<ds::Horizontal> = vcore::nth_string(k, i + below).into_iter().map(|j| menu[j as usize].clone()).collect();
-            check_list(i, &list, acc);
+            check_list(i, &list, font, acc);
         }
     });
 }
@@ -664,7 +698,7 @@ fn seq_family(ctx: &mut Ctx, family_no: u64, name: &str, what: &str, menu: &(dyn
 fn main() {
     let mut ctx = Ctx::new("C15", Level::Exploration);
     ctx.assume("domain: characters, ligatures, kerns, rules, hboxes/vboxes with shifts, penalties, discretionaries, glue; marks, inserts, adjusts, math nodes, whatsits and leaders are outside the property's quantifier (the code has todo!() there)");
-    ctx.assume("metrics are looked up per (font, character) (§654); a character node whose font lacks the character contributes nothing (TeX never builds such a node: new_character §582 returns null; the crate's pack passes over it); all dimensions, the natural width and the target are within TeX's max_dimen (2^30-1 sp); every running sum of widths and of per-order stretch/shrink stays inside TeX's 32-bit integers (TeX adds them unchecked, §651-656)");
+    ctx.assume("the harness fonts are driven through two FontRepo implementations: one that implements only width/height/depth (so HBox::pack goes through the trait's default width_height_depth) and one that overrides it; a glyph with a width but no height or depth counts with 0 there (the crate's documented default); metrics are looked up per (font, character) (§654); a character node whose font lacks the character contributes nothing (TeX never builds such a node: new_character §582 returns null; the crate's pack passes over it); all dimensions, the natural width and the target are within TeX's max_dimen (2^30-1 sp); every running sum of widths and of per-order stretch/shrink stays inside TeX's 32-bit integers (TeX adds them unchecked, §651-656)");
     ctx.assume("ds::HBox has no glue_sign field: the sign is carried by glue_ratio.num/den (negative = shrinking, the way boxworks::tex::parse_glue_set builds it) and is judged through the exact identity natural + ratio*total(order) = width on every box whose glue is set and which TeX would not report as overfull; on an overfull box (TeX: glue_set 1.0, sign shrinking) only |ratio| = 1 is required, because the crate's own equality and box language are sign-blind (the sign observed there is recorded as an outcome class)");
     ctx.assume("the printed form of a ratio is compared through the crate's own Display (f32 based, TeX §186 uses a float as well); the exact rational identity is what decides");
     ctx.assume("a running rule dimension is ds::Rule::RUNNING (-2^31) in the crate and null_flag (-2^30) in TeX; the conversion maps one to the other. hpack (§653) does not test for running dimensions: the stored values enter the maxima, a running one is below every maximum, an explicit one counts even when the other is running. The width of a rule is never running in an hlist (§138): not enumerated");
@@ -703,6 +737,8 @@ fn main() {
     seq_family(&mut ctx, 3, "glue-diag-deep", "glue that only stretches or only shrinks; amounts {0,+2pt,-2pt,+3pt} x 4 orders (32 glues)", &|| glue_diag(&[0, 2, -2, 3], false), if quick { 4 } else { 5 }, if quick { 4 } else { 5 });
     // F3b: the same character in several fonts
     seq_family(&mut ctx, 5, "fonts", "characters and ligatures over {a,b} x {font 0, font 1 (other metrics), font 2 (a missing)}, non-ASCII glyphs (e-acute in two fonts, a euro ligature, an emoji present in font 1 and missing in font 0), interleaved with a glue, a kern, a box and a penalty", &fonts_menu, 1, if quick { 4 } else { 5 });
+    // the same lists through a FontRepo that overrides width_height_depth (the families above use the trait's default method)
+    seq_family_font(&mut ctx, 8, "fonts-overriding-repo", "characters and ligatures over {a,b} x {font 0, font 1 (other metrics), font 2 (a missing)}, non-ASCII glyphs (e-acute in two fonts, a euro ligature, an emoji present in font 1 and missing in font 0), interleaved with a glue, a kern, a box and a penalty", &fonts_menu, 1, if quick { 4 } else { 5 }, &conv::FontWhd { unit: PT });
     // F3c: rules with running dimensions
     seq_family(&mut ctx, 6, "rules", "rules with height and depth each running, small (1pt / 0.5pt) or large (15pt / 14pt, above every other item), two characters, a shifted box, a glue, a kern", &rules_menu, 1, if quick { 5 } else { 6 });
     // F3d: items that change nothing
@@ -722,6 +758,8 @@ fn main() {
     ctx.require("zero_valued_item_among_others", "a zero-valued item next to items that count");
     ctx.require("non_ascii_glyph_in_list", "a character or ligature whose character needs 2, 3 or 4 bytes in UTF-8");
     ctx.require("zero_width_item_is_the_tallest_or_deepest", "an item of width 0 (rule, box, glyph, ligature) determines the height or depth of the box");
+    ctx.require("glyph_with_width_but_no_height_or_depth_via_default_method", "a glyph for which the FontRepo returns Some(width) and None for height or depth, packed through the trait's default width_height_depth");
+    ctx.require("glyph_with_width_but_no_height_or_depth_via_overriding_repo", "the same through a FontRepo that overrides width_height_depth");
     ctx.require("overfull", "TeX would call the box overfull");
     ctx.require("shrink_exactly_used_up", "the target equals natural width minus the finite shrinkability (ratio exactly 1, not overfull)");
     ctx.require("shifted_box_decides_height_or_depth", "a shifted box determines the height or depth of the result");
